@@ -25,9 +25,10 @@ const chainID = 1
 type dev struct {
 	name  string
 	qc    *lib.QuorumCertificate
-	valid bool // label by construction
-	byRef bool // label taken from the reference only (construction cannot tell)
-	noRef bool // the reference cannot judge it (needs block execution): the label by construction stands
+	valid bool   // label by construction
+	byRef bool   // label taken from the reference only (construction cannot tell)
+	noRef bool   // the reference cannot judge it (needs block execution): the label by construction stands
+	env   uint64 // chain id written into the block-message envelope (0 = the node's own)
 }
 
 func clone(q *lib.QuorumCertificate) *lib.QuorumCertificate {
@@ -319,6 +320,13 @@ func runCase(t *testing.T, run *core.Run, name string, idx int, rng *rand.Rand) 
 		q.Header.ChainId++
 		q.Header.NetworkId++
 		add("header chain+1,network+1 resigned-by-all", false, resign(q, nil))
+		// a certificate made for another chain by the same validators, sent in an envelope that names that chain too
+		for _, other := range []uint64{chainID + 1, chainID + 6} {
+			q = clone(p.QC)
+			q.Header.ChainId = other
+			resign(q, nil)
+			devs = append(devs, dev{name: "header chain=other resigned-by-all envelope=other", qc: q, valid: false, env: other})
+		}
 	}
 	// 6. block / hash binding
 	{
@@ -408,7 +416,9 @@ func runCase(t *testing.T, run *core.Run, name string, idx int, rng *rand.Rand) 
 			continue // valid variants are exercised at the end (only one can be committed)
 		}
 		before := nd.Store.Version()
+		ch.EnvelopeChainID = d.env
 		err := ch.Deliver(0, d.qc, nil, false)
+		ch.EnvelopeChainID = 0
 		after := nd.Store.Version()
 		run.Eval(1)
 		run.Count("invalid_certificates_offered", 1)
